@@ -10,6 +10,7 @@ pub mod oracle;
 pub mod point;
 pub mod quat;
 pub mod vec;
+pub mod xform;
 
 pub enum Val {
     S(X),
@@ -232,6 +233,7 @@ pub fn lookup(name: &str) -> Option<OpFn> {
         .or_else(|| point::lookup(name))
         .or_else(|| mat::lookup(name))
         .or_else(|| quat::lookup(name))
+        .or_else(|| xform::lookup(name))
         .or_else(|| oracle::lookup(name))
 }
 pub fn all_names() -> Vec<String> {
@@ -240,6 +242,7 @@ pub fn all_names() -> Vec<String> {
     v.extend(point::names());
     v.extend(mat::names());
     v.extend(quat::NAMES.iter().map(|s| s.to_string()));
+    v.extend(xform::names());
     v.extend(oracle::names());
     v
 }
